@@ -140,6 +140,7 @@ type Explorer struct {
 	nameCtr  int
 	nondets  []nondet
 	labelCnt map[string]int
+	chooses  []int
 	oblOnPath int
 	dumpDir  string
 	verbose  bool
@@ -343,6 +344,12 @@ func parseBVLit(s string) uint64 {
 
 // Choose is a free nondeterministic choice among n alternatives (all assumed feasible).
 func (e *Explorer) Choose(n int) int {
+	v := e.choose(n)
+	e.chooses = append(e.chooses, v)
+	return v
+}
+
+func (e *Explorer) choose(n int) int {
 	if n <= 1 {
 		return 0
 	}
@@ -535,13 +542,18 @@ func (e *Explorer) model() (map[string]string, []string) {
 	for _, nd := range e.nondets {
 		names = append(names, nd.Name)
 	}
+	m := map[string]string{}
+	var order []string
+	for i, c := range e.chooses {
+		k := fmt.Sprintf("choose#%d", i)
+		m[k] = fmt.Sprint(c)
+		order = append(order, k)
+	}
 	if len(names) == 0 {
-		return map[string]string{}, nil
+		return m, order
 	}
 	raw := e.z.GetValues(names)
 	vals := parseValues(raw)
-	m := map[string]string{}
-	var order []string
 	for i, nd := range e.nondets {
 		if i < len(vals) {
 			key := strings.Trim(nd.Name, "|")
@@ -598,6 +610,7 @@ func (e *Explorer) RunPath(prefix []int, run func()) {
 	e.prefix = prefix
 	e.taken = nil
 	e.nondets = nil
+	e.chooses = nil
 	e.nameCtr = 0
 	e.oblOnPath = 0
 	e.labelCnt = map[string]int{}
